@@ -289,9 +289,21 @@ def run_generate(cli, etas, sizes, prob, bias, code_class, deformation_name, lab
 
         def makedirs(self, *a, **k):
             pass
+
+        def remove(self, name):              # the in-memory file system is the only one generate-input sees
+            files.pop(name, None)
+
+        def listdir(self, d):
+            return sorted({k[len(d.rstrip('/')) + 1:].split('/')[0] for k in files if k.startswith(d.rstrip('/') + '/')})
+
+    def fake_glob(pattern, *a, **k):
+        import fnmatch
+        return sorted(k_ for k_ in files if fnmatch.fnmatchcase(k_, pattern))
     saved = (cli.__dict__.get('open'), cli.os)
+    saved_glob = cli.__dict__.get('glob')
     cli.open = fake_open
     cli.os = Os()
+    cli.glob = fake_glob
     try:
         import panqec.codes as pc
         if decoder is None:
@@ -305,6 +317,10 @@ def run_generate(cli, etas, sizes, prob, bias, code_class, deformation_name, lab
         else:
             cli.open = saved[0]
         cli.os = saved[1]
+        if saved_glob is None:
+            cli.__dict__.pop('glob', None)
+        else:
+            cli.glob = saved_glob
     return files
 
 
